@@ -1023,6 +1023,7 @@ def saturate(ctx):
 def run(ctx):
     saturate(ctx)
     rawbuild(ctx)
+    templatesize(ctx)
     pruneset(ctx)
     rowrange(ctx)
     scorer_build(ctx)
@@ -1033,6 +1034,72 @@ def run(ctx):
     reserved0(ctx)
     ctx.assume("SCORERCHK decides that the collision check cannot be bypassed in either build; "
                "the equality of the sums and portable/AVX2 numeric agreement are not decided")
+
+
+def templatesize(ctx):
+    """TEMPLATESIZE (C07, C16): the number of templates RawConnectorBuilder::from_readers hands to
+    RawConnectorBuilder::new is the length of the longest row of *either* id file. Every row that is
+    pushed onto one of the two lists must be counted: a width that leaves rows out (pairing the two
+    files row by row stops at the shorter file) drops the trailing templates of the uncounted
+    rows in the dual connector, and overruns the row in the raw one."""
+    from flow import back_slice
+    crate = ctx.facts("A").lib
+    E = Effects(crate)
+    p = "vibrato::dictionary::connector::raw_connector::RawConnectorBuilder::from_readers"
+    if p not in crate.fns or not crate.fns[p].body:
+        raise EngineError("TEMPLATESIZE: anchor lost: %s" % p)
+    fa = E.fa(p)
+    sinks = [(b, t) for b, t in fa.calls() if cname(t) == "new" and
+             any("RawConnectorBuilder" in x for x in callee_paths(t)) and len(t["args"]) >= 3]
+    if len(sinks) != 1:
+        raise EngineError("TEMPLATESIZE: expected one RawConnectorBuilder::new call in from_readers, found %d" % len(sinks))
+    sb, st = sinks[0]
+    V = [root_local(fa, a) for a in st["args"][:2]]
+    if None in V or V[0] == V[1]:
+        raise EngineError("TEMPLATESIZE: the two id lists passed to RawConnectorBuilder::new are not two locals")
+    calls = []
+
+    def term(b, t):
+        calls.append((b, t))
+        return None
+    back_slice(fa, st["args"][2], term)
+    names = {cname(t) for b, t in calls}
+    len_calls = [(b, t) for b, t in calls if cname(t) == "len" and t["args"]]
+    max_calls = [(b, t) for b, t in calls if cname(t) == "max"]
+    counted = {}
+    for b, t in len_calls:
+        x = table_var(fa, t["args"][0])
+        feeds_max = any(any((fa.origin(a)[0] == "call" and fa.origin(a)[1] == b) for a in mt["args"]) for mb, mt in max_calls)
+        counted[x] = counted.get(x, False) or feeds_max
+    lists_in_slice = {table_var(fa, a) for b, t in calls for a in t["args"]} & set(V)
+    pushes = [(b, t) for b, t in fa.calls() if cname(t) == "push" and len(t["args"]) == 2 and table_var(fa, t["args"][0]) in V]
+    ctx.floor("TEMPLATESIZE", "rows pushed onto the two id lists", len(pushes), 2)
+    for b, t in pushes:
+        side = "right" if table_var(fa, t["args"][0]) == V[0] else "left"
+        x = table_var(fa, t["args"][1])
+        key = "%s|%s-rows-counted" % (p, side)
+        if x in counted:
+            ok = counted[x]
+            ctx.ob("TEMPLATESIZE", key, ok, fa.loc(b),
+                   "the length of every bigram.%s row is folded into the template count by max" % side if ok else
+                   "the length of a bigram.%s row reaches the template count, but not through max: "
+                   "the count is not that of the longest row" % side)
+        elif table_var(fa, t["args"][0]) in lists_in_slice:
+            if "zip" in names:
+                ctx.ob("TEMPLATESIZE", key, False, fa.loc(sb),
+                       "the template count is computed over the two row lists paired by zip: rows of the "
+                       "longer file that have no partner are not counted, their trailing templates are "
+                       "dropped by the dual connector and overrun the row in the raw connector")
+            elif "max" in names and not ({"min", "take", "skip", "step_by", "last", "first", "nth"} & names):
+                ctx.ob("TEMPLATESIZE", key, True, fa.loc(sb),
+                       "the template count is a max over the complete bigram.%s list" % side)
+            else:
+                raise EngineError("TEMPLATESIZE: the template count is derived from the %s list by %s: not recognised"
+                                  % (side, sorted(names)))
+        else:
+            ctx.ob("TEMPLATESIZE", key, False, fa.loc(b),
+                   "the rows of bigram.%s are not counted when the number of templates is determined: a "
+                   "row longer than every counted row loses its trailing templates" % side)
 
 
 def rawbuild(ctx):
